@@ -27,6 +27,8 @@ FailsKrig(o) ==
      \cup Api("template", o.tpl, FALSE) \cup Api("kriged-function", o.kf, FALSE)
      \cup (IF NoNugget(o) THEN Api("wrapper", o.wrap, WrapperRefuses(o.pts)) ELSE {})
      \cup Check("wrapper-is-template-on-normalised-coordinates", (NoNugget(o) /\ cls = "regular") => o.wagree)
+     \* the std::vector and tfel::math::vector constructors of a wrapper build the same interpolant (bitwise)
+     \cup Check("wrapper-constructor-overloads-differ", (NoNugget(o) /\ "woverloads" \in DOMAIN o) => o.woverloads)
      \cup Check("kriged-function-is-template", (o.tpl.out = "ok") => (o.kf.out = "ok" /\ o.kfsame))
 FailsFact(o) ==
   LET n == Len(o.pts)
